@@ -120,7 +120,7 @@ FACTORS = [
     ("n_max_steps", [None, 2]),
     ("eval", ["scalar", "vec", "blobs"]),
     ("pool", [None, 1, "obj", 2]),
-    ("boundary", ["none", "per0", "ref1", "per0ref1", "empty", "tuples"]),
+    ("boundary", ["none", "per0", "ref1", "per0ref1", "empty", "tuples", "sets"]),
     ("save_every", [None, 1, 3]),
     ("output_label", [None, "x"]),
     ("target", ["gauss", "bimodal", "unequal"]),
